@@ -166,6 +166,8 @@ func checkC19(c *Ctx) Meta {
 	checkDeleteOrder(c)
 	c.Rule("C19-WMD", "stored entries disappear only through the bucket API: every leveldb delete (Transaction.Delete, Batch.Delete, DB.Delete) in the store's package sits in Bucket.Delete, Bucket.Clear or the bucket-deletion routine (or a helper used by them alone) — no maintenance pass, open path or other function removes entries by its own reading of the keys", 4)
 	checkWhoMayDelete(c, "C19-WMD")
+	c.Rule("C19-BATCH", "what a bucket operation collects reaches the store: every leveldb.Batch the store package allocates is handed to Transaction.Write / DB.Write by the allocating function or by a function it is passed to (or leaves the function: nothing claimed) — a batch that is filled and dropped loses the deletes collected in it, so the entries of a deleted sub-bucket reappear in a bucket created later under the same path", 2)
+	checkBatchWritten(c, "C19-BATCH")
 	c.Rule("C19-UPDATE", "db.Update rolls back on a closure error and returns Commit's result otherwise (shared with C12-E)", 3)
 
 	sep, _ := constVal(c, pkgLDB, "bucketPathSep")
